@@ -17,6 +17,7 @@ R05.1  every call of Token::linenr() / Token::column() in lib/ whose value (dire
        positions are not decisions and are ignored.
 R05.2  token lists are rendered with line breaks / line numbers / file names only by the printers of the Token class.
 """
+import re
 from .common.facts import walk, walk_parents, strip, call_args, AnalysisBroken
 
 POS = {'Token::linenr', 'Token::column'}
@@ -93,6 +94,7 @@ def run(ctx):
                    '%s branches on a comparison of token line/column numbers at line(s) %s: two layouts of the same token sequence (statement on one line / on several '
                    'lines) take different branches, so a finding can appear or disappear when only whitespace changes' % (name, lines), where)
     r05_2(ctx)
+    r05_3(ctx)
     ctx.floor('R05.1 linenr()/column() calls in lib/', ncalls, 80)
     ctx.floor('R05.1 position comparisons', ndec, 10)
     for tab in (LAYOUT_SENSITIVE,):
@@ -143,3 +145,86 @@ def r05_2(ctx):
                '%s %s (line %s): the resulting text differs between two layouts of the same tokens, and this function is not a printer - what is compared with it or '
                'put into a finding changes when only whitespace changes' % (f['name'], hits[0][0], hits[0][1]), '%s:%s' % (f['file'], hits[0][1]))
     ctx.floor('R05.2 functions producing layout-carrying text', n, 3)
+
+
+def r05_3(ctx):
+    """R05.3  line numbers are only compared within one file: in the functions that may compare positions (the tables of R05.1), a comparison between a token's
+    line and a line that does not come from a token (a directive's line, a suppression's line, a stored pair) is conjoined with - or dominated by - a test that
+    both belong to the same file.  Without it the lines of two different files are compared, and inserting blank or comment lines in one file changes the result
+    for code whose own layout did not change."""
+    F = ctx.facts
+    ctx.rule('R05.3', 'a token line is compared with a non-token line only together with a same-file test')
+    TABLED = set(LAYOUT_SENSITIVE) | set(LINE_SEMANTICS) | set(ORDER_IDIOM)
+    n = 0
+
+    def filey(e):
+        for y in walk(e):
+            nm = (y.get('n') or y.get('fn') or '')
+            if y.get('k') in ('MemberExpr', 'CXXMemberCallExpr', 'CallExpr', 'DeclRefExpr') and re.search(r'(?i)file', nm):
+                return True
+        return False
+    for f in F.all_fns():
+        if f['name'] not in TABLED or not f['file'].startswith('lib/'):
+            continue
+        b = F.body(f)
+        if b is None:
+            continue
+        pos_locals = {x['di'] for x in walk(b['body']) if x.get('k') == 'VarDecl' and x.get('init') is not None and
+                      any(y.get('k') == 'CXXMemberCallExpr' and y.get('fn') in POS for y in walk(x['init']))}
+        # locals that are assigned a token line somewhere in the function hold token lines
+        for x in walk(b['body']):
+            if x.get('k') == 'BinaryOperator' and x.get('op') == '=' and (strip(x['c'][0]) or {}).get('k') == 'DeclRefExpr' and \
+                    any(y.get('k') == 'CXXMemberCallExpr' and y.get('fn') in POS for y in walk(x['c'][1])):
+                pos_locals.add(strip(x['c'][0])['di'])
+
+        def tokenish(e):
+            e0 = e
+            while e0 is not None and e0.get('k') in ('ImplicitCastExpr', 'ParenExpr', 'CStyleCastExpr', 'CXXStaticCastExpr', 'CXXFunctionalCastExpr') and e0.get('c'):
+                e0 = e0['c'][0]
+            if e0 is None:
+                return False
+            if e0.get('k') == 'CXXMemberCallExpr' and e0.get('fn') in POS:
+                return True
+            if e0.get('k') == 'DeclRefExpr' and e0.get('di') in pos_locals:
+                return True
+            if e0.get('k') == 'BinaryOperator' and e0.get('op') in ('+', '-'):
+                return tokenish(e0['c'][0]) or tokenish(e0['c'][1])
+            return False
+        for x, parents in walk_parents(b['body']):
+            if x.get('k') != 'BinaryOperator' or x.get('op') not in ('<', '>', '<=', '>=', '==', '!='):
+                continue
+            l, r = x['c'][0], x['c'][1]
+            tl, tr = tokenish(l), tokenish(r)
+            if tl == tr:
+                continue            # token vs token (same stream) or no token line at all
+            other = r if tl else l
+            o0 = strip(other)
+            while o0 is not None and o0.get('k') in ('ImplicitCastExpr', 'ParenExpr', 'CXXStaticCastExpr', 'CStyleCastExpr') and o0.get('c'):
+                o0 = o0['c'][0]
+            if o0 is None or o0.get('k') in ('IntegerLiteral',):
+                continue
+            n += 1
+            # the whole boolean expression around the comparison, and the conditions of the enclosing ifs
+            top = x
+            conds = []
+            for p in reversed(parents):
+                if p.get('k') in ('BinaryOperator',) and p.get('op') in ('&&', '||') or p.get('k') in ('ParenExpr', 'ImplicitCastExpr', 'UnaryOperator'):
+                    top = p
+                    continue
+                break
+            conds.append(top)
+            for p in parents:
+                if p.get('k') == 'IfStmt' and p.get('cond') is not None and not any(z is x for z in walk(p['cond'])):
+                    conds.append(p['cond'])
+            same_file = False
+            for c in conds:
+                for y in walk(c):
+                    if (y.get('k') == 'BinaryOperator' and y.get('op') == '==') or (y.get('k') == 'CXXOperatorCallExpr' and y.get('op') == '=='):
+                        if filey(y):
+                            same_file = True
+            ctx.ob('R05.3', 'cross-line:%s:%d' % (f['name'], n), same_file,
+                   ('%s compares a token line with a stored line together with a same-file test' % f['name']) if same_file else
+                   ('%s compares a token\'s line with a line that does not come from a token (line %s) and neither that condition nor an enclosing one tests that both lines '
+                    'belong to the same file: the lines of two different files are compared, so blank or comment lines added to one file change the result for another'
+                    % (f['name'], x['l'])), '%s:%s' % (f['file'], x['l']))
+    ctx.floor('R05.3 comparisons of a token line with a non-token line', n, 4)
